@@ -19,22 +19,23 @@ import (
 const modulePath = "github.com/reeflective/readline"
 
 type Engine struct {
-	repo    string
-	verif   string
-	prog    *ssa.Program
-	fset    *token.FileSet
-	spkgs   map[string]*ssa.Package
-	tpkgs   map[string]*types.Package
-	byName  map[string]*types.Package // short package name -> package (module first)
-	pkgDirs map[string]string
-	funcs   map[string]*ssa.Function
-	cs      *Contracts
-	src     map[string][]string
-	wsMemo  map[*ssa.Function]*WriteSet
-	inlMemo map[*ssa.Function]bool
-	overlay string
-	known   *KnownFindings
-	curProp string
+	repo      string
+	verif     string
+	prog      *ssa.Program
+	fset      *token.FileSet
+	spkgs     map[string]*ssa.Package
+	tpkgs     map[string]*types.Package
+	byName    map[string]*types.Package // short package name -> package (module first)
+	pkgDirs   map[string]string
+	funcs     map[string]*ssa.Function
+	cs        *Contracts
+	src       map[string][]string
+	wsMemo    map[*ssa.Function]*WriteSet
+	inlMemo   map[*ssa.Function]bool
+	overlay   string
+	known     *KnownFindings
+	curProp   string
+	reachMemo map[[2]*ssa.Function]bool
 }
 
 func LoadEngine(repo, verif string) (*Engine, error) {
@@ -80,7 +81,7 @@ func LoadEngine(repo, verif string) (*Engine, error) {
 		e.funcs[f.String()] = f
 	}
 	e.cs = NewContracts()
-	if err := e.cs.LoadAll(repo, e.pkgDirs, filepath.Join(verif, "specs")); err != nil {
+	if err := e.cs.LoadAll(repo, verif, filepath.Join(verif, "specs")); err != nil {
 		return nil, err
 	}
 	return e, nil
@@ -523,9 +524,12 @@ func (e *Engine) callWrites(f *ssa.Function, ci ssa.CallInstruction, ws *WriteSe
 	if c.IsInvoke() {
 		key := "(" + typeKey(c.Value.Type()) + ")." + c.Method.Name()
 		if fc := e.cs.Funcs[ifaceKey(c)]; fc != nil && fc.HasAssigns {
-			for _, k := range e.assignKeys(fc, nil) {
-				ws.addKey(k, nil)
+			names := []string{"self"}
+			sig := c.Signature()
+			for i := 0; i < sig.Params().Len(); i++ {
+				names = append(names, sig.Params().At(i).Name())
 			}
+			e.addAssignKeys(ws, fc, nil, names, append([]ssa.Value{c.Value}, c.Args...))
 			return
 		}
 		ws.All, ws.Why = true, "interface call "+key+" without contract in "+f.String()
@@ -552,44 +556,27 @@ func (e *Engine) callWrites(f *ssa.Function, ci ssa.CallInstruction, ws *WriteSe
 	}
 	if callee == nil {
 		if fc := e.fnTypeContract(c.Value.Type()); fc != nil && fc.HasAssigns {
-			for _, k := range e.assignKeys(fc, nil) {
-				ws.addKey(k, nil)
+			var names []string
+			sig := c.Signature()
+			for i := 0; i < sig.Params().Len(); i++ {
+				names = append(names, sig.Params().At(i).Name())
 			}
+			e.addAssignKeys(ws, fc, nil, names, c.Args)
 			return
 		}
 		ws.All, ws.Why = true, "dynamic call of "+c.Value.Name()+" ("+typeKey(c.Value.Type())+") in "+f.String()
 		return
 	}
 	if fc := e.cs.Funcs[callee.String()]; fc != nil && fc.HasAssigns {
-		keys := e.assignKeys(fc, callee)
-		// refine: assigns clauses of the form param.field / *param name the object by argument
-		if ws.track && len(keys) == len(fc.Assigns) {
-			for i, a := range fc.Assigns {
-				var ref ssa.Value
-				var pname string
-				switch x := a.E.(type) {
-				case ESel:
-					if id, ok := x.X.(EIdent); ok && x.Name != "all" {
-						pname = id.Name
-					}
-				case EUn:
-					if id, ok := x.X.(EIdent); ok && x.Op == "*" {
-						if _, isStruct := isPtrToStructByName(callee, id.Name); !isStruct {
-							pname = id.Name
-						}
-					}
-				}
-				if pname != "" {
-					for j, p := range callee.Params {
-						if p.Name() == pname && j < len(c.Args) {
-							ref = c.Args[j]
-						}
-					}
-				}
-				ws.addKey(keys[i], ref)
-			}
-			return
+		var names []string
+		for _, p := range callee.Params {
+			names = append(names, p.Name())
 		}
+		e.addAssignKeys(ws, fc, callee, names, c.Args)
+		return
+	}
+	if false {
+		var keys []string
 		for _, k := range keys {
 			ws.addKey(k, nil)
 		}
@@ -617,6 +604,16 @@ func (e *Engine) callWrites(f *ssa.Function, ci ssa.CallInstruction, ws *WriteSe
 	if callee.Blocks == nil {
 		return
 	}
+	if ws.track {
+		sub := e.WriteSetOf(callee)
+		for k := range sub.Keys {
+			ws.addKey(k, nil)
+		}
+		if sub.All && !ws.All {
+			ws.All, ws.Why = true, sub.Why
+		}
+		return
+	}
 	e.collectWrites(callee, ws, visiting, false)
 }
 
@@ -637,6 +634,54 @@ func (e *Engine) collectWrites(f *ssa.Function, ws *WriteSet, visiting map[*ssa.
 		}
 	}
 	// closures defined inside may run when called; their writes are accounted for at call sites
+}
+
+// addAssignKeys adds the keys of a contract's assigns clauses; when tracking references, clauses of the
+// form param.field, *param, ghost(param) name the object by the corresponding argument value.
+func (e *Engine) addAssignKeys(ws *WriteSet, fc *FuncContract, callee *ssa.Function, names []string, args []ssa.Value) {
+	groups := e.assignKeyGroups(fc, callee)
+	if !ws.track || len(groups) != len(fc.Assigns) {
+		for _, g := range groups {
+			for _, k := range g {
+				ws.addKey(k, nil)
+			}
+		}
+		return
+	}
+	for i, a := range fc.Assigns {
+		var ref ssa.Value
+		var pname string
+		switch x := a.E.(type) {
+		case ESel:
+			if id, ok := x.X.(EIdent); ok {
+				pname = id.Name
+			}
+		case EUn:
+			if id, ok := x.X.(EIdent); ok && x.Op == "*" {
+				pname = id.Name
+			}
+		case ECall:
+			if sd := e.cs.LookupSpec(fc.PkgPath, x.Fun); sd != nil && sd.Ghost && len(x.Args) == 1 {
+				if id, ok := x.Args[0].(EIdent); ok {
+					pname = id.Name
+				}
+			}
+		}
+		if pname != "" {
+			for j, n := range names {
+				if (n == pname || fmt.Sprintf("p%d", j) == pname) && j < len(args) {
+					ref = args[j]
+				}
+			}
+		}
+		for _, k := range groups[i] {
+			r := ref
+			if !(strings.HasPrefix(k, "f:") || strings.HasPrefix(k, "c:") || strings.HasPrefix(k, "gh:") || strings.HasPrefix(k, "m:") || strings.HasPrefix(k, "d:")) {
+				r = nil
+			}
+			ws.addKey(k, r)
+		}
+	}
 }
 
 func isPtrToStructByName(f *ssa.Function, pname string) (types.Type, bool) {
@@ -661,4 +706,45 @@ func (e *Engine) fnTypeContract(t types.Type) *FuncContract {
 		}
 	}
 	return nil
+}
+
+// reaches reports whether function to is reachable from function from through static calls
+// (including closures created in the bodies) inside the module.
+func (e *Engine) reaches(from, to *ssa.Function) bool {
+	if e.reachMemo == nil {
+		e.reachMemo = map[[2]*ssa.Function]bool{}
+	}
+	k := [2]*ssa.Function{from, to}
+	if v, ok := e.reachMemo[k]; ok {
+		return v
+	}
+	seen := map[*ssa.Function]bool{}
+	var dfs func(f *ssa.Function) bool
+	dfs = func(f *ssa.Function) bool {
+		if f == to {
+			return true
+		}
+		if seen[f] || f.Blocks == nil || !e.inModule(f) {
+			return false
+		}
+		seen[f] = true
+		for _, b := range f.Blocks {
+			for _, ins := range b.Instrs {
+				switch x := ins.(type) {
+				case ssa.CallInstruction:
+					if cal := x.Common().StaticCallee(); cal != nil && dfs(cal) {
+						return true
+					}
+				case *ssa.MakeClosure:
+					if dfs(x.Fn.(*ssa.Function)) {
+						return true
+					}
+				}
+			}
+		}
+		return false
+	}
+	r := dfs(from)
+	e.reachMemo[k] = r
+	return r
 }
